@@ -9,6 +9,8 @@
    check (family prestate, spec 4 evaluated on failing runs too). *)
 From Coq Require Import NArith List Bool.
 From DudV Require Import Base.Bytes Base.Json Model.Fs Model.Cache Proofs.CacheDefs Proofs.CheckoutProofs.
+From Coq Require Import Relations.
+From DudV Require Import Base.Json Base.GoPath Model.Stage Model.Index Proofs.PipelineProofs Proofs.StageLiftProofs.
 Import ListNotations.
 
 (* [preserved c st before after]: unchanged, newly created, a matching link replaced by a copy of
@@ -39,3 +41,23 @@ Theorem C06_obstructed_fails :
     (forall fuel n, a_isdir a = true -> is_dir n = false -> checkout_node H fuel a (Some n) c st = Err).
 Proof. exact C06_obstructed. Qed.
 Print Assumptions C06_obstructed_fails.
+
+(* At the level of the COMMAND (all targets, all outputs, upstream stages): every pre-existing entry
+   of the whole workspace is preserved by a successful checkout ... *)
+Theorem C06_command_frame :
+  forall (H : bytes -> bytes) idx c strat recursive fuel ts root done root' done',
+    checkout_targets H idx c strat recursive fuel ts (Ok (root, done)) = Ok (root', done') ->
+    forall p, preserved c strat (get root p) (get root' p).
+Proof. exact checkout_targets_preserved. Qed.
+Print Assumptions C06_command_frame.
+
+(* ... and an entry in the way of ANY output of ANY stage in scope makes the command fail,
+   wherever that stage comes in the list of targets *)
+Theorem C06_command_obstructed_fails :
+  forall (H : bytes -> bytes) idx c strat (recursive : bool) fuel ts root t b stg a bs,
+    In t ts -> (if recursive then clos_refl_trans bytes (edge idx) b t else b = t) ->
+    alookup b idx = Some stg -> In a (s_outputs stg) -> a_skip a = false -> a_isdir a = false ->
+    get root (comps (a_path a)) = Some (File bs) -> H bs <> a_cs a ->
+    checkout_targets H idx c strat recursive fuel ts (Ok (root, [])) = Err.
+Proof. exact checkout_targets_obstructed_fails. Qed.
+Print Assumptions C06_command_obstructed_fails.
